@@ -167,9 +167,12 @@ pub fn resp_encode(f: &RFrame, out: &mut Vec<u8>) {
     }
 }
 
-/// The implementation refuses arrays nested deeper than this (fix 02d272a); the reference agrees so
-/// that "accepted by the implementation => accepted by the reference" stays meaningful.
-pub const MAX_NESTED_ARRAYS: usize = 32;
+/// The reference decodes arrays iteratively and could nest without bound; it stops here only
+/// because dropping a deeper `RFrame` would recurse too far in the harness itself. The limit is
+/// deliberately far above the implementation's (32 since fix 02d272a): where the implementation
+/// refuses and the reference accepts nothing is compared, so a maintainer may move the
+/// implementation's limit without this oracle noticing.
+pub const MAX_NESTED_ARRAYS: usize = 2048;
 
 #[derive(Clone, Debug, PartialEq, Eq)]
 pub enum RErr {
@@ -279,7 +282,7 @@ pub fn resp_decode(b: &[u8], p: usize) -> Result<(RFrame, usize), RErr> {
                 }
                 let n = usize::try_from(v).map_err(|_| RErr::Bad)?;
                 p = q;
-                // mirrors the implementation's nesting limit (arrays at depth 0..31)
+                // the harness's own limit, see MAX_NESTED_ARRAYS
                 if stack.len() >= MAX_NESTED_ARRAYS {
                     return Err(RErr::Bad);
                 }
